@@ -1304,9 +1304,10 @@ class sptensor:
         matching_indices = idx[valid]
 
         # Assemble return array
-        nvals = wsubs.shape[0]
+        nvals = W.nnz
         vals = np.zeros((nvals, 1))
-        vals[valid] = self.vals[matching_indices]
+        if nvals > 0 and self.nnz > 0:
+            vals[valid] = self.vals[matching_indices]
         return vals
 
     def mttkrp(
